@@ -28,7 +28,8 @@ STRATS = ['knees', 'expected', 'best', 'worst']
 @st.composite
 def cases(draw, tier):
     c = draw(S.curves(3, 40 if tier == 'quick' else 200, scales=False,
-                      families=['mono_dec', 'convex', 'noise', 'plateau', 'quant', 'pwl_dyadic', 'trace', 'repo', 'steps']))
+                      families=['mono_dec', 'convex', 'noise', 'plateau', 'quant', 'pwl_dyadic', 'trace', 'repo', 'steps'],
+                      big_n=120 if tier == 'quick' else 400))
     pts = c['pts']
     n = len(pts)
     k = draw(st.integers(1, max(1, (n - 1) // 2)))
